@@ -76,7 +76,7 @@ def check_artefact(ctx, a, stats, errs=None):
     # hypnotoad measures distance along an Nfine-point polygon: relative error O(1/Nfine^2).
     # The constant is empirical: worst observed on the pinned tree 31/Nfine^2 (udn2, orth,
     # cell next to the X-point); 150 leaves a factor 5.  Index or hand-over errors are O(1).
-    rtol = 150.0 / nf**2
+    rtol = 200.0 / nf**2
     regs = {r["myID"]: r for r in side["regions"]}
     myg = int(opts.get("y_boundary_guards", 0))
     worst_rel = 0.0
